@@ -16,8 +16,13 @@
 (*         (bytes it could not complete a command from)]                    *)
 (* Numbers travel as decimal text: the protocol's 64-bit ranges exceed      *)
 (* TLC's integers; the strict parser has already range-checked them.        *)
+(* When hasraw, the event also carries the bytes themselves: raw (what      *)
+(* sendall received), vals (the value bytes per key), expb / flagsb / casb  *)
+(* / deltab (the integer arguments as decimal bytes); TLC then reads raw    *)
+(* with the TLA+ tokenizer of Proto.tla and compares with IntendedB: the    *)
+(* verdict does not rest on the Python parser alone.                        *)
 (***************************************************************************)
-EXTENDS KeyRule
+EXTENDS KeyRule, Proto
 
 NoreplyDefaultFalse == {"cas", "incr", "decr"}
 EffNoreply(ev) == IF ev.nrarg = "true" THEN TRUE
@@ -54,6 +59,27 @@ Intended(ev) ==
          << [verb |-> "flush_all", delay |-> ev.exp, noreply |-> nr] >>
     [] OTHER -> << >>
 
+(* the same, in Proto.tla's all-bytes command records *)
+IntendedB(ev) ==
+  LET nr == EffNoreply(ev) IN
+  CASE ev.op \in StoreOps ->
+         [i \in DOMAIN ev.keys |->
+            [verb |-> Verb(ev.op), key |-> W(ev, i), flags |-> ev.flagsb, exptime |-> ev.expb,
+             data |-> ev.vals[i], noreply |-> nr, cas |-> IF ev.op = "cas" THEN ev.casb ELSE <<>>]]
+    [] ev.op \in {"get", "gets", "get_many", "gets_many"} ->
+         << [verb |-> Verb(ev.op), keys |-> [i \in DOMAIN ev.keys |-> W(ev, i)], exptime |-> <<>>, noreply |-> FALSE] >>
+    [] ev.op \in {"gat", "gats"} ->
+         << [verb |-> ev.op, keys |-> [i \in DOMAIN ev.keys |-> W(ev, i)], exptime |-> ev.expb, noreply |-> FALSE] >>
+    [] ev.op \in {"delete", "delete_many"} ->
+         [i \in DOMAIN ev.keys |-> [verb |-> "delete", key |-> W(ev, i), noreply |-> nr]]
+    [] ev.op \in {"incr", "decr"} ->
+         << [verb |-> ev.op, key |-> W(ev, 1), delta |-> ev.deltab, noreply |-> nr] >>
+    [] ev.op = "touch" ->
+         << [verb |-> "touch", key |-> W(ev, 1), exptime |-> ev.expb, noreply |-> nr] >>
+    [] ev.op = "flush_all" ->
+         << [verb |-> "flush_all", delay |-> ev.expb, noreply |-> nr] >>
+    [] OTHER -> << >>
+
 (* multi-key batches on a HashClient are validated and sent key by key *)
 AllOrNothing(ev) == ev.stack \in {"client", "pooled"}
 
@@ -68,7 +94,13 @@ WMonClauses(m, ev) ==
      <<"C02-what-is-sent-parses-as-exactly-the-intended-commands",
            (ev.outcome = "sent" /\ ~ev.badarg /\ AllLegal(ev)) => (ev.cmds = Intended(ev) /\ ev.leftover = 0)>>,
      <<"C02-nothing-unparseable-is-sent",
-           (ev.nsent > 0 /\ AllOrNothing(ev)) => (ev.leftover = 0 /\ \A i \in DOMAIN ev.cmds : ev.cmds[i].verb # "PARSE-ERROR")>> >>
+           (ev.nsent > 0 /\ AllOrNothing(ev)) => (ev.leftover = 0 /\ \A i \in DOMAIN ev.cmds : ev.cmds[i].verb # "PARSE-ERROR")>>,
+     <<"C02-the-bytes-sent-tokenize-to-exactly-the-intended-commands",
+           (ev.hasraw /\ ev.outcome = "sent" /\ ~ev.badarg /\ AllLegal(ev))
+              => Tokenize(ev.raw) = [cmds |-> IntendedB(ev), left |-> 0]>>,
+     <<"C02-the-bytes-sent-tokenize-without-error",
+           (ev.hasraw /\ ev.nsent > 0 /\ AllOrNothing(ev))
+              => LET t == Tokenize(ev.raw) IN t.left = 0 /\ \A i \in DOMAIN t.cmds : t.cmds[i].verb # "PARSE-ERROR">> >>
 WMonEffect(m, ev) == [m EXCEPT !.n = m.n + 1]
 WMonFinal(m) == <<>>
 =============================================================================
